@@ -1,0 +1,9 @@
+//go:build verif
+
+package vgis3
+
+// Thin exported wrapper over the unexported object-key generator for the
+// /verif conformance harness. It calls the real function and nothing else.
+
+// VerifGenerateKey returns generateUUID().
+func VerifGenerateKey() string { return generateUUID() }
